@@ -32,7 +32,7 @@ from . import common, util_lie as U
 from .common import Ctx
 
 META = {
-    "rule": "corpus (seed-independent): all pairs of corner values theta in {0,1e-30,eps-1ulp,eps,eps+1ulp,2eps,64eps,sqrt(eps),1e-3,1,"
+    "rule": "reuse + corpus (seed-independent): a call history under one batch shape with type/dtype/regimes changing between calls; every ordered pair / each alone / all together of 8 representative items per type; views (strided, batch-sliced, transposed, expanded); all pairs of corner values theta in {0,smallest subnormal,1e-300,1e-30,eps-1ulp,eps,eps+1ulp,2eps,64eps,sqrt(eps),1e-3,1,"
             "pi,pi+,2pi,7,4pi} x sigma in +-{0,1e-30,eps-1ulp,eps,eps+1ulp,2eps,64eps,2^20 eps,sqrt(eps),1e-3,1,8}, axis-aligned and "
             "generic direction, fixed translations (0, O(1), 1e3, 1e-30, up to 1e9), quarter-decade log sweeps of theta (1e-18..10) "
             "and |sigma| (1e-18..5.6, both signs), fixed mixed-regime batch cuts, degenerate shapes; grid: theta ladder x signed "
@@ -50,7 +50,7 @@ META = {
     "assumptions": ["generator bounds: rotation angle <= 4*pi, |log-scale| <= 8, finite inputs",
                     "relative error of the rotation block is measured against 1 (unit quaternion / orthogonal matrix), of the "
                     "scale block against e^sigma, of the translation block against |tau|_inf * (e^sigma-1)/sigma"],
-    "partial": ["rounding: the clause 'relative error at most k*eps / k*sqrt(eps)' is decided as theorem over the reals (33 theorems: "
+    "partial": ["rounding: the clause 'relative error at most k*eps / k*sqrt(eps)' is decided as theorem over the reals (38 theorems: "
                 "matrix(Exp x) = exp(generator) in every exact regime of all four types, entrywise bounds <= 9*eps*e^|sigma|*(1+|tau|_1) "
                 "for every input) + measured agreement of the float code with the 192-bit model and with mpmath on the generated inputs"],
 }
